@@ -145,10 +145,17 @@ def key_order(ctx):
             bound = dict(zip(params, c.args))
             for k in c.keywords:
                 bound[k.arg] = k.value
-            bad = [p for p, v in bound.items() if axis_of_text(p) in ('IL', 'XL') and axis_of_text(U(v)) in ('IL', 'XL')
-                   and axis_of_text(p) != axis_of_text(U(v))]
+            bad = []
+            for p_, v in bound.items():
+                pa = axis_of_text(p_)
+                if pa not in ('IL', 'XL'):
+                    continue
+                leaf_axes = {axis_of_text(U(x)) for x in ast.walk(v) if isinstance(x, (ast.Name, ast.Attribute))} - {None, 'MIXED'}
+                if leaf_axes - {pa}:
+                    bad.append('%s <- `%s`' % (p_, U(v)))
             if bad:
-                ctx.fail('C08.2', geo, enclosing_stmt(c), 'Geometry3d parameters %s receive values of the other axis' % bad)
+                ctx.fail('C08.2', geo, enclosing_stmt(c), 'Geometry3d parameters receive quantities of the other axis: %s - the '
+                         'inferred grid of that axis gets the wrong extent' % '; '.join(bad))
             else:
                 ctx.ok('C08.2', geo, c, 'ranges are handed to Geometry3d axis by axis')
     # the lookup tuple in the filler, the inline number, the header store position - on polynomials
